@@ -337,16 +337,15 @@ Definition equal_match (cs nm : bool) (text pat : list Z) : res mres :=
 
 (* ---------- FuzzyMatchV2 ---------- *)
 
-(* Phase 2 fold of one window character: note the class-based lower-casing (only characters whose
-   class is charUpper are lower-cased) -- different from foldm for non-ASCII characters that have a
-   lower-case mapping without being in class Upper. *)
+(* Phase 2 fold of one window character (ASCII: class-based; non-ASCII: unicode lower-casing, then
+   normalisation) together with its class. *)
 Definition fold_v2 (cs nm : bool) (c : Z) : Z * Z :=   (* (class, folded char) *)
   if c <=? 127 then
     let class := ascii_class sc c in
     (class, if negb cs && (class =? cUpper) then c + 32 else c)
   else
     let class := co_class co c in
-    let c := if negb cs && (class =? cUpper) then co_lower co c else c in
+    let c := if negb cs then co_lower co c else c in
     (class, if nm then co_norm co c else c).
 
 Record p2 := mkP2 {
